@@ -67,6 +67,7 @@ type vWriteRun struct {
 	startFaultPlanted bool
 	startFaults       int             // how many START faults this history may still inject
 	badPathNext       bool            // the next START that would succeed names an unusable output path
+	emtCh             int             // >= 0: this channel uses the edge-multi trigger with variable-length records
 	gapMode           bool            // base path pre-populated with run directories (with holes) of today
 	preDirs           map[string]bool // directories that existed before the request being applied
 	hist              []string
@@ -174,6 +175,25 @@ func vNewWriteRun(c *vCase, variety bool) *vWriteRun {
 		}
 		w.hasProj[ch], w.projP[ch], w.projB[ch] = true, P, B
 	}
+	// one channel without a model may make variable-length records (edge-multi): LJH3 takes records of any length,
+	// an LJH2.2 file only those of its fixed length; a record the writer refuses must not disturb anything else
+	w.emtCh = -1
+	if variety && c.Idx%3 == 1 && w.nsamp-w.npre >= 8 && w.npre >= 4 {
+		for ch := w.nchan - 1; ch >= 0; ch-- {
+			if !w.hasProj[ch] && !w.f.signed[ch] {
+				var es TriggerState
+				es.EdgeMulti = true
+				es.EMTState.mode = EMTRecordsVariableLength
+				es.EMTState.threshold = 300
+				es.EMTState.nmonotone = 1
+				if err := ds.ChangeTriggerState(&FullTriggerState{ChannelIndices: []int{ch}, TriggerState: es}); err == nil {
+					w.emtCh = ch
+					c.Cov("histories_with_variable_length_channel", 1)
+				}
+				break
+			}
+		}
+	}
 	w.base = filepath.Join(c.Dir, "out")
 	os.MkdirAll(w.base, 0o755)
 	if vChance(r, 0.3) {
@@ -233,6 +253,13 @@ func (w *vWriteRun) pushBlock(ext []int64, dropped int) bool {
 				}
 				seg[at+j] = RawType(uint16(int16(base + v)))
 			}
+			if ch == w.emtCh && (w.blockNo+q)%2 == 0 {
+				// a second pulse on the tail of the first, closer than one record: the first record comes out short
+				at2 := at + (w.nsamp-w.npre)/2 + 2
+				for j := 0; at2+j < blen && j < w.nsamp; j++ {
+					seg[at2+j] += RawType(3000 - j*(3000/w.nsamp+1))
+				}
+			}
 		}
 		f.truth[ch] = append(f.truth[ch], seg...)
 	}
@@ -247,6 +274,13 @@ func (w *vWriteRun) pushBlock(ext []int64, dropped int) bool {
 		perch[rec.channelIndex]++
 	}
 	for ch, n := range perch {
+		if ch == w.emtCh {
+			if n < np {
+				c.Inconclusive("harness", "block %d: the edge-multi channel %d produced %d records from at least %d pulses", w.blockNo, ch, n, np)
+				return false
+			}
+			continue
+		}
 		if n != np {
 			c.Inconclusive("harness", "block %d: channel %d produced %d records, the harness planted %d pulses", w.blockNo, ch, n, np)
 			return false
@@ -264,7 +298,10 @@ func (w *vWriteRun) pushBlock(ext []int64, dropped int) bool {
 	if w.model.active && !w.model.paused {
 		for _, rec := range recs {
 			ch := rec.channelIndex
-			if w.cur.types[0] {
+			if len(rec.data) != w.nsamp {
+				c.Cov("variable_length_records_while_writing", 1)
+			}
+			if w.cur.types[0] && len(rec.data) == w.nsamp { // an LJH2.2 file holds records of its one length only
 				k := fmt.Sprintf("%d/ljh", ch)
 				w.cur.expected[k] = append(w.cur.expected[k], rec)
 			}
@@ -556,6 +593,15 @@ func (w *vWriteRun) checkSession(s *vSession) bool {
 			fn := fname(ds.chanNames[ch], ext)
 			used[fn] = true
 			if len(want) == 0 {
+				if present[fn] && ch == w.emtCh && ext == "ljh" {
+					// only records of other lengths were offered to this LJH2.2 file: a header without records is a well-formed file
+					b, _ := os.ReadFile(filepath.Join(s.dir, fn))
+					if f, err := vParseLJH22(b); err != nil || len(f.recs) != 0 || f.trailing != 0 {
+						c.Violate("c05:ljh22-count", "%s: only records of other lengths were offered, yet the file holds %d bytes that are not just a header (%v)", fn, len(b), err)
+						return false
+					}
+					continue
+				}
 				if present[fn] {
 					b, _ := os.ReadFile(filepath.Join(s.dir, fn))
 					c.Violate("c06:unexpected-file", "file %s (%d bytes) exists although no record of channel %d was accepted for type %s in this session (types %v, history %v)", fn, len(b), ch, ext, s.types, w.hist)
